@@ -8,5 +8,5 @@ Extraction "model.ml" run_inner run_inner_state guard_menu parse_menu map_menu a
   render_help info_meta
   collect_html manpage_doc render_html render_markdown render_roff manpage_th
   denote compile_options flat_okb chain_okb tree_okb plain_cmds oko
-  derive_field to_kebab_case unit_variant_names command_name group_help_of
-  eval outcome_of c_run_inner c_run_inner_state erase erase_o completer_menu marker_rev render_message_text render_doc_text utf8_valid arg_os.
+  derive_field to_kebab_case unit_variant_names command_name group_help_of options_help
+  eval outcome_of c_run_inner c_run_inner_state erase erase_o completer_menu marker_rev lit_items c_initial_state render_message_text render_doc_text utf8_valid arg_os.
